@@ -186,27 +186,25 @@ theorem dot_eq (sqrt : Rat → Rat) (a b : List Rat) (n : Nat) (ha : a.length = 
   intro l _
   exact getD_zipWith_mul a b l
 
-/-- **one local fit reproduces the polynomial.**  Window `[left, right)` inside the data, data on a polynomial
-`p` of degree ≤ `poly_order` there, more than `poly_order` window points with non-zero total weight
-`kernel·sqrt_w`, pairwise distinct `x`; numeric layer `hsol`: the solver's answer satisfies the normal equations
-of the system it was handed.  Then `vander[i].dot(coef) = p(x[i])` (for ANY evaluation point `i`, and any
-`kernel` vector, recomputed or cached). -/
-theorem fitAt_reproduces (sqrt : Rat → Rat) (solver : Solver Rat) (x y w kernel p : List Rat)
-    (po i left right : Nat) (hx : StrictMonoL x) (hy : y.length = x.length) (hw : w.length = x.length)
-    (hlr : left < right) (hr : right ≤ x.length) (hi : i < x.length) (hk : kernel.length = right - left)
+/-- **the local solve returns the polynomial's own coefficients.**  Window `[left, right)` inside the data, data
+on a polynomial `p` of degree ≤ `poly_order` there, more than `poly_order` window points with non-zero total
+weight `kernel·sqrt_w`, pairwise distinct `x`; numeric layer `hsol`: the solver's answer satisfies the normal
+equations of the system it was handed.  (Any `kernel` vector, recomputed or cached.) -/
+theorem solver_reproduces (sqrt : Rat → Rat) (solver : Solver Rat) (x y w kernel p : List Rat)
+    (po left right : Nat) (hx : StrictMonoL x) (hy : y.length = x.length) (hw : w.length = x.length)
+    (hlr : left < right) (hr : right ≤ x.length) (hk : kernel.length = right - left)
     (hp : p.length ≤ po + 1)
     (hdata : ∀ k, left ≤ k → k < right → y.getD k 0 = evalPoly p (x.getD k 0))
     (hpos : po < ((List.range (right - left)).filter fun k => kernel.getD k 0 * w.getD (left + k) 0 ≠ 0).length)
     (hsol : NormalEq (sysOf sqrt x y w kernel po left right).1 (sysOf sqrt x y w kernel po left right).2
       (solver (sysOf sqrt x y w kernel po left right).1 (sysOf sqrt x y w kernel po left right).2)) :
-    (fitAt (ratNum sqrt) solver (yFit (ratNum sqrt) y w) (vanderFit (ratNum sqrt) (vanderOf x po) w)
-      (vanderOf x po) kernel i left right).2 = evalPoly p (x.getD i 0) := by
+    (solver (sysOf sqrt x y w kernel po left right).1 (sysOf sqrt x y w kernel po left right).2).length = po + 1 ∧
+    ∀ l, l < po + 1 →
+      (solver (sysOf sqrt x y w kernel po left right).1 (sysOf sqrt x y w kernel po left right).2).getD l 0 =
+        p.getD l 0 := by
   have hx0 : 0 < x.length := by omega
   set sys := sysOf sqrt x y w kernel po left right with hsys
   set c := solver sys.1 sys.2 with hc
-  have hgoal : (fitAt (ratNum sqrt) solver (yFit (ratNum sqrt) y w) (vanderFit (ratNum sqrt) (vanderOf x po) w)
-      (vanderOf x po) kernel i left right).2 = dot (ratNum sqrt) ((vanderOf x po).getD i []) c := rfl
-  rw [hgoal]
   obtain ⟨hclen, hne⟩ := hsol
   rw [sys_rows sqrt x y w kernel po left right hx0] at hclen hne
   rw [sys_rhs_length sqrt x y w kernel po left right hy hw hr hk] at hne
@@ -283,16 +281,148 @@ theorem fitAt_reproduces (sqrt : Rat → Rat) (solver : Solver Rat) (x y w kerne
     · have := hx (left + good b) (left + good a) (by omega) (by omega)
       exact absurd hab.symm (ne_of_lt this)
   have he := wls_core (right - left) (po + 1) t u e hne' good hinj hgm hgu
-  -- hence the fitted value is p(x_i)
-  rw [dot_eq sqrt _ c (po + 1) (vanderOf_row_length x po i hi) hclen, evalPoly_pad p (po + 1) hp]
-  apply Finset.sum_congr rfl
-  intro l hl
-  rw [Finset.mem_range] at hl
-  have := he l hl
-  have hcl : c.getD l 0 = p.getD l 0 := by
-    have h2 : p.getD l 0 - c.getD l 0 = 0 := this
-    linarith
-  rw [vanderOf_getD x po i l hi hl, hcl]
-  ring
+  refine ⟨hclen, fun l hl => ?_⟩
+  have h2 : p.getD l 0 - c.getD l 0 = 0 := he l hl
+  linarith
+
+/-- … hence `coefs[i]` is `p` (padded with zeros to `poly_order + 1` entries) and `baseline[i] = p(x[i])`,
+for ANY evaluation point `i` -/
+theorem fitAt_reproduces (sqrt : Rat → Rat) (solver : Solver Rat) (x y w kernel p : List Rat)
+    (po i left right : Nat) (hx : StrictMonoL x) (hy : y.length = x.length) (hw : w.length = x.length)
+    (hlr : left < right) (hr : right ≤ x.length) (hi : i < x.length) (hk : kernel.length = right - left)
+    (hp : p.length ≤ po + 1)
+    (hdata : ∀ k, left ≤ k → k < right → y.getD k 0 = evalPoly p (x.getD k 0))
+    (hpos : po < ((List.range (right - left)).filter fun k => kernel.getD k 0 * w.getD (left + k) 0 ≠ 0).length)
+    (hsol : NormalEq (sysOf sqrt x y w kernel po left right).1 (sysOf sqrt x y w kernel po left right).2
+      (solver (sysOf sqrt x y w kernel po left right).1 (sysOf sqrt x y w kernel po left right).2)) :
+    let r := fitAt (ratNum sqrt) solver (yFit (ratNum sqrt) y w) (vanderFit (ratNum sqrt) (vanderOf x po) w)
+      (vanderOf x po) kernel i left right
+    r.1 = (List.range (po + 1)).map (fun l => p.getD l 0) ∧ r.2 = evalPoly p (x.getD i 0) := by
+  obtain ⟨hclen, hcl⟩ := solver_reproduces sqrt solver x y w kernel p po left right hx hy hw hlr hr hk hp hdata hpos hsol
+  set c := solver (sysOf sqrt x y w kernel po left right).1 (sysOf sqrt x y w kernel po left right).2 with hc
+  have h1 : (fitAt (ratNum sqrt) solver (yFit (ratNum sqrt) y w) (vanderFit (ratNum sqrt) (vanderOf x po) w)
+      (vanderOf x po) kernel i left right) = (c, dot (ratNum sqrt) ((vanderOf x po).getD i []) c) := rfl
+  simp only [h1]
+  constructor
+  · apply List.ext_getElem
+    · simp [hclen]
+    · intro l h1 h2
+      have := hcl l (by omega)
+      simp only [List.getD_eq_getElem?_getD, List.getElem?_eq_getElem h1, Option.getD_some] at this
+      simp [this]
+  · rw [dot_eq sqrt _ c (po + 1) (vanderOf_row_length x po i hi) hclen, evalPoly_pad p (po + 1) hp]
+    apply Finset.sum_congr rfl
+    intro l hl
+    rw [Finset.mem_range] at hl
+    rw [vanderOf_getD x po i l hi hl, hcl l hl]
+    ring
+
+/-! ### the guards of the kernel computation -/
+
+theorem diffs_length (sqrt : Rat → Rat) (x : List Rat) (i left right : Nat) (hr : right ≤ x.length) :
+    (diffs (ratNum sqrt) x i left right).length = right - left := by
+  simp [diffs, length_slice x left right hr]
+
+theorem kernelOf_length (sqrt : Rat → Rat) (x : List Rat) (i left right : Nat) (hr : right ≤ x.length) :
+    (kernelOf (ratNum sqrt) x i left right).length = right - left := by
+  simp [kernelOf, diffs_length sqrt x i left right hr]
+
+theorem diffs_getD (sqrt : Rat → Rat) (x : List Rat) (i left right k : Nat) (hk : k < right - left)
+    (hr : right ≤ x.length) :
+    (diffs (ratNum sqrt) x i left right).getD k 0 = |x.getD (left + k) 0 - x.getD i 0| := by
+  have hlen := length_slice x left right hr
+  have hk' : k < (slice x left right).length := by omega
+  have h := getD_slice x left right k
+  rw [if_pos hk] at h
+  simp only [List.getD_eq_getElem?_getD, List.getElem?_eq_getElem hk', Option.getD_some] at h
+  simp only [diffs, List.getD_eq_getElem?_getD, List.getElem?_map, List.getElem?_eq_getElem hk', Option.map_some,
+    Option.getD_some, ratNum, h]
+  split
+  · rename_i hneg; rw [abs_of_neg hneg]
+  · rename_i hneg; rw [abs_of_nonneg (not_lt.1 hneg)]
+
+/-- **the kernel never divides by zero** on a window of at least two distinct abscissae that contains its fit
+point: `max(difference[0], difference[-1]) > 0` -/
+theorem kernelDen_pos (sqrt : Rat → Rat) (x : List Rat) (i left right : Nat) (hx : StrictMonoL x)
+    (hli : left ≤ i) (hir : i < right) (h2 : left + 2 ≤ right) (hr : right ≤ x.length) :
+    0 < kernelDen (ratNum sqrt) x i left right := by
+  have hlen := diffs_length sqrt x i left right hr
+  have hhead : (diffs (ratNum sqrt) x i left right).headD 0 = |x.getD left 0 - x.getD i 0| := by
+    rw [List.headD_eq_head?_getD, List.head?_eq_getElem?, ← List.getD_eq_getElem?_getD,
+      diffs_getD sqrt x i left right 0 (by omega) hr]
+    simp
+  have hlast : (diffs (ratNum sqrt) x i left right).getLastD 0 = |x.getD (right - 1) 0 - x.getD i 0| := by
+    rw [List.getLastD_eq_getLast?, List.getLast?_eq_getElem?, ← List.getD_eq_getElem?_getD, hlen,
+      diffs_getD sqrt x i left right (right - left - 1) (by omega) hr]
+    congr 3
+    omega
+  unfold kernelDen pyMax
+  have hz : (ratNum sqrt).zero = 0 := rfl
+  rw [hz, hhead, hlast]
+  by_cases hil : i = left
+  · subst hil
+    have := hx i (right - 1) (by omega) (by omega)
+    have hpos : 0 < |x.getD (right - 1) 0 - x.getD i 0| := abs_pos.2 (by intro h0; linarith)
+    simp only [sub_self, abs_zero, ratNum, decide_eq_true_eq]
+    rw [if_pos hpos]
+    exact hpos
+  · have := hx left i (by omega) (by omega)
+    have hpos : 0 < |x.getD left 0 - x.getD i 0| := abs_pos.2 (by intro h0; linarith)
+    simp only [ratNum, decide_eq_true_eq]
+    split
+    · rename_i hlt; exact lt_trans hpos hlt
+    · exact hpos
+
+/-! ### every fitted point -/
+
+/-- the hypotheses on one (fit `q.1`, window `[q.2.1, q.2.2)`) pair: the window lies inside the data, contains
+its fit point and at least two points (the guards under which the kernel is computed without dividing by zero,
+`kernelDen_pos`), more than `poly_order` of its points carry non-zero total weight `kernel·sqrt_w`, and — the
+NUMERIC LAYER — `_loess_solver` returned a solution of the normal equations of this local system -/
+def FitOk (sqrt : Rat → Rat) (solver : Solver Rat) (x y w : List Rat) (po : Nat) (q : Nat × Nat × Nat) : Prop :=
+  q.2.1 ≤ q.1 ∧ q.1 < q.2.2 ∧ q.2.1 + 2 ≤ q.2.2 ∧ q.2.2 ≤ x.length ∧
+  po < ((List.range (q.2.2 - q.2.1)).filter fun k =>
+      (kernelOf (ratNum sqrt) x q.1 q.2.1 q.2.2).getD k 0 * w.getD (q.2.1 + k) 0 ≠ 0).length ∧
+  NormalEq (sysOf sqrt x y w (kernelOf (ratNum sqrt) x q.1 q.2.1 q.2.2) po q.2.1 q.2.2).1
+    (sysOf sqrt x y w (kernelOf (ratNum sqrt) x q.1 q.2.1 q.2.2) po q.2.1 q.2.2).2
+    (solver (sysOf sqrt x y w (kernelOf (ratNum sqrt) x q.1 q.2.1 q.2.2) po q.2.1 q.2.2).1
+      (sysOf sqrt x y w (kernelOf (ratNum sqrt) x q.1 q.2.1 q.2.2) po q.2.1 q.2.2).2)
+
+instance (sqrt : Rat → Rat) (solver : Solver Rat) (x y w : List Rat) (po : Nat) (q : Nat × Nat × Nat) :
+    Decidable (FitOk sqrt solver x y w po q) := by
+  unfold FitOk; exact inferInstance
+
+/-- **polynomial reproduction at every fitted point**, baseline and coefficients -/
+theorem lowMemory_reproduces (sqrt : Rat → Rat) (solver : Solver Rat) (x y w p : List Rat)
+    (coefs : List (List Rat)) (po : Nat) (windows : List (Nat × Nat)) (fits : List Nat)
+    (hx : StrictMonoL x) (hy : y.length = x.length) (hw : w.length = x.length) (hc : coefs.length = x.length)
+    (hp : p.length ≤ po + 1)
+    (hdata : ∀ k, k < x.length → y.getD k 0 = evalPoly p (x.getD k 0))
+    (hfit : ∀ q ∈ fits.zip windows, FitOk sqrt solver x y w po q) :
+    let r := lowMemory (ratNum sqrt) solver x y w coefs (vanderOf x po) x.length windows fits
+    ∀ q ∈ fits.zip windows,
+      r.baseline.getD q.1 none = some (evalPoly p (x.getD q.1 0)) ∧
+      r.coefs.getD q.1 [] = (List.range (po + 1)).map (fun l => p.getD l 0) := by
+  intro r q hq
+  have h := fold_write
+    (fun p => fitAt (ratNum sqrt) solver (yFit (ratNum sqrt) y w) (vanderFit (ratNum sqrt) (vanderOf x po) w)
+      (vanderOf x po) (kernelOf (ratNum sqrt) x p.1 p.2.1 p.2.2) p.1 p.2.1 p.2.2)
+    (fits.zip windows) (out0 x.length coefs)
+  obtain ⟨_, _, hj⟩ := h
+  obtain ⟨q', hq', hqq, hb, hcf⟩ := (hj q.1).2 (List.mem_map.2 ⟨q, hq, rfl⟩)
+  obtain ⟨h1, h2, h3, h4, h5, h6⟩ := hfit q' hq'
+  have hrep := fitAt_reproduces sqrt solver x y w (kernelOf (ratNum sqrt) x q'.1 q'.2.1 q'.2.2) p po q'.1 q'.2.1 q'.2.2
+    hx hy hw (by omega) h4 (by omega) (kernelOf_length sqrt x q'.1 q'.2.1 q'.2.2 h4) hp
+    (fun k _ hk => hdata k (by omega)) h5 h6
+  have hq1 : q.1 < x.length := by rw [← hqq]; omega
+  constructor
+  · have := hb (by simpa [out0] using hq1)
+    show (lowMemory (ratNum sqrt) solver x y w coefs (vanderOf x po) x.length windows fits).baseline.getD q.1 none = _
+    unfold lowMemory
+    rw [this, hrep.2, hqq]
+  · have := hcf (by simpa [out0, hc] using hq1)
+    show (lowMemory (ratNum sqrt) solver x y w coefs (vanderOf x po) x.length windows fits).coefs.getD q.1 [] = _
+    unfold lowMemory
+    rw [this, hrep.1]
 
 end PbVerif.Lemmas.LoessKern
